@@ -125,6 +125,9 @@ class _BaseAttribute(ABC):
     def default_value(self):
         if self._default_value is None:
             self._default_value = self.type.default_value(self.elemsize)
+        elif self.elemsize>1 and not isinstance(self._default_value, np.ndarray):
+            # a scalar default on a vector attribute stands for the vector filled with it (as in the dense storage)
+            self._default_value = Vec([self._default_value]*self.elemsize)
         return self._default_value
 
     def _check_default_value_type(self):
